@@ -241,7 +241,7 @@ PROPS = {
             'the overrun error being turned into a detach frame by the link/engine is not verified']),
     'C12': dict(
         probes=[COMPOSITE_VARIANTS],
-        units=['CONN', 'CONNENG', 'HEADERS', 'HDRCODEC', 'HANDLES', 'LCONNDELEG', 'SESSWIRING', 'CONNWIRING', 'WIRELAYOUT', 'ERRCOND'],
+        units=['CONN', 'CONNENG', 'HEADERS', 'HDRCODEC', 'HANDLES', 'LCONNDELEG', 'SESSWIRING', 'CONNWIRING', 'WIRELAYOUT', 'ERRCOND', 'DESCDISPATCH'],
         lemmas={'CONNENG': ['lemma_extc_trans']}, kani=[], level='proof', title='Connection lifecycle',
         assumptions=[ASYNC,
             'that the connection engine event loop (select!) drives only these transition functions, and calls send_open/send_close once each, is not verified',
